@@ -4,6 +4,10 @@ from rulelib import *
 from facts import op_int, op_local, op_place
 import C02
 
+THOROUGH_CFGS = ('min_none', 'min_rten', 'min_onnx')   # reduced-feature builds of the rten crate (thorough tier)
+# instances whose subject does not exist in a reduced-feature build (format crates not linked, no random operators)
+CFG_DEPENDENT_KEYS = ('C25.no-const-cast|crate:rten_model_file', 'C25.no-const-cast|crate:rten_onnx', 'C25.determinism|sink-reaching-operators-declare-nondeterminism')
+
 EXPLANATION = (
     "Immutability, decided structurally: (shared-ref) Model::run/run_n/run_one/partial_run and Graph::run/partial_run/"
     "run_subgraph/run_plan take &self, so by Rust's aliasing rules a run can only change state behind interior mutability "
@@ -112,6 +116,7 @@ def determinism(ctx, fb):
     import C04 as c04
     sub = type(ctx)(ctx.prop, ctx.tier, ctx.fact_dirs, {}, ctx.repo_hash)
     sub._fbs = ctx._fbs
+    sub.default_cfg = getattr(ctx, 'default_cfg', 'ws')
     c04.run(sub)
     bad = [i for i in sub.instances if i['rule'] == 'C04.nondet-table' and not i['ok']]
     n = len([i for i in sub.instances if i['rule'] == 'C04.nondet-table'])
